@@ -169,7 +169,11 @@ class Vanilla(Payoff):
         :param payoff_type: payoff type
         """
         super().__init__()
-        self.strike = strike
+        # a vector of strikes is copied: the strikes are those of the construction, whatever the caller does with its
+        # own list / array afterwards
+        self.strike = (
+            strike if isinstance(strike, Real) else np.array(strike, dtype=float)
+        )
         self.payoff_type = payoff_type
 
         if payoff_type == PayoffType.CALL:
@@ -417,8 +421,8 @@ class Bond(Payoff):
         :param deltas: accrual of the underlying rates
         """
         super().__init__()
-        self.deltas = deltas
-        self._factor = 1 / np.prod(1 + deltas * underlying_rates)
+        self.deltas = np.array(deltas, dtype=float)  # own copy of the caller's accruals
+        self._factor = 1 / np.prod(1 + self.deltas * underlying_rates)
         self._dimension = underlying_rates.size
 
     def evaluate(self, underlying_rates) -> float:
@@ -442,9 +446,9 @@ class Cap(Payoff):
         :param strike: strike of the cap
         """
         super().__init__()
-        self.deltas = deltas
+        self.deltas = np.array(deltas, dtype=float)  # own copy of the caller's accruals
         self.strike = strike
-        self._factor = 1 / np.prod(1 + deltas * underlying_rates)
+        self._factor = 1 / np.prod(1 + self.deltas * underlying_rates)
         self._dimension = underlying_rates.size
 
     def evaluate(self, underlying_rates) -> float:
@@ -488,7 +492,7 @@ class Ratchet(Payoff):
         :param first_rate: value of the first underlying rate
         """
         super().__init__()
-        self.deltas = deltas
+        self.deltas = np.array(deltas, dtype=float)  # own copy of the caller's accruals
         self.gearing = funding_gearing
         self.margin = funding_margin
         self.spread = structured_spread
@@ -532,11 +536,11 @@ class Swaption(Payoff):
                               leg)
         """
         super().__init__()
-        self.deltas = deltas
+        self.deltas = np.array(deltas, dtype=float)  # own copy of the caller's accruals
         self.strike = strike
         self.type = swaption_type
         self._eps = 1 if swaption_type == SwaptionType.PAYER else -1
-        self._factor = 1 / np.prod(1 + deltas * underlying_rates)
+        self._factor = 1 / np.prod(1 + self.deltas * underlying_rates)
 
     def evaluate(self, underlying_rates) -> float:
         aux = np.cumprod(1 + self.deltas * underlying_rates)
